@@ -192,6 +192,25 @@ fn check(ctx: &Ctx, m: &ModelGame, label: &str, counting: bool) -> Result<(), Fa
 			Fail::new(format!("op=rowview {}", key), format!("v{}.{} frame index {}: {}", m.version.0, m.version.1, i, e)).with_file("slp", &bytes).with_detail(m.summary())
 		})?;
 	}
+	// a game trimmed through the public Arrow API (export, drop the first k rows, import): still a game, but
+	// its list offsets no longer start at 0 and its bitmaps carry an offset
+	if g.frames.len() >= 3 && rt::hash_bytes(&bytes) % 4 == 1 {
+		let g_b = rt::slp_read_default(&bytes).expect_ok("slippi::read").map_err(|f| f.with_file("slp", &bytes))?;
+		let occ = peppi::game::port_occupancy(&g_b.start);
+		let n = g_b.frames.len();
+		let k = 1 + (rt::hash_bytes(&bytes) >> 8) as usize % (n - 1);
+		let trimmed = rt::guard(|| Ok::<_, String>(peppi::frame::immutable::Frame::from_struct_array(g_b.frames.into_struct_array(version, &occ).sliced(k, n - k), version)))
+			.expect_ok("from_struct_array(sliced)")
+			.map_err(|f| f.with_file("slp", &bytes))?;
+		let tview = view_immutable(&trimmed);
+		for i in 0..trimmed.len() {
+			let row = rt::guard(|| Ok::<_, String>(trimmed.transpose_one(i, version))).expect_ok("transpose_one(trimmed game)").map_err(|f| f.with_file("slp", &bytes))?;
+			row_matches(&row, &tview, i, version).map_err(|e| Fail::new("op=rowview trimmed_game", format!("v{}.{} game trimmed by {} rows through the Arrow API, frame index {}: {}", m.version.0, m.version.1, k, i, e)).with_file("slp", &bytes))?;
+		}
+		if counting {
+			ctx.class("rows_of_trimmed_game");
+		}
+	}
 	// the game::Game trait view of the finished game agrees with its fields
 	if format!("{:?}", GameTrait::start(&g)) != format!("{:?}", g.start) || format!("{:?}", GameTrait::end(&g)) != format!("{:?}", g.end) || GameTrait::len(&g) != g.frames.len() || GameTrait::metadata(&g) != &g.metadata || GameTrait::gecko_codes(&g) != &g.gecko_codes {
 		return Err(Fail::new("op=rowview trait_accessors", "game::Game accessors disagree with the game's fields").with_file("slp", &bytes));
